@@ -85,4 +85,38 @@ example : ∀ (cb : PyGen.coder.Coder.process_operator_descriptor.Callbacks Nat 
     (PyGen.coder.Coder.process_operator_descriptor cb ps 0 (opdOf 201130)).map (fun r => r.1.nbits_offset) = .ok 2 := by
   intro cb ps; rfl
 
+/-! ### the registers the model does not carry
+
+  `bitmap` and `most_recent_bitmap_is_for_reuse` have no counterpart in `Regs` (they never influence a result), so
+  `C01_src_process_operator_descriptor` says nothing about them.  The two operators that write `bitmap` are pinned
+  down exactly, as equations on the generated function. -/
+
+/-- 237255 (cancel the re-used bitmap): `bitmap` is cleared exactly when the most recent bitmap was defined for
+    re-use (236000); then the operator is recorded by `process_constant`. -/
+theorem C01_src_operator_237255_exact {D V B : Type} (cb : PyGen.coder.Coder.process_operator_descriptor.Callbacks D V B)
+    (ps : PyGen.coder.CoderState.Self D V) (b : B) (id : Nat) (hc : id / 1000 = 237) (hy : id % 1000 ≠ 0) :
+    PyGen.coder.Coder.process_operator_descriptor cb ps b (opdOf id) =
+      cb.process_constant (if ps.most_recent_bitmap_is_for_reuse then { ps with bitmap := none } else ps) b (opdOf id) 0 := by
+  have h1 := opdOf_code id
+  have h2 := opdOf_operand id
+  rw [hc] at h1
+  generalize opdOf id = d at h1 h2 ⊢
+  generalize id % 1000 = y at h2 hy
+  have e0 : (y : Int) ≠ 0 := by omega
+  cases hr : ps.most_recent_bitmap_is_for_reuse <;>
+    simp [PyGen.coder.Coder.process_operator_descriptor, h1, h2, exc_pure, exc_bind_ok, exc_bind_eta, e0, hy, hr,
+      PyGen.coder.CoderState.cancel_bitmap]
+
+/-- 235000 (cancel all back references): the back-referenced descriptors, `bitmap` and the bitmapped descriptors are
+    set to `None`; nothing else happens (no descriptor is recorded). -/
+theorem C01_src_operator_235_exact {D V B : Type} (cb : PyGen.coder.Coder.process_operator_descriptor.Callbacks D V B)
+    (ps : PyGen.coder.CoderState.Self D V) (b : B) (id : Nat) (hc : id / 1000 = 235) :
+    PyGen.coder.Coder.process_operator_descriptor cb ps b (opdOf id) =
+      .ok ({ ps with back_referenced_descriptors := none, bitmap := none, bitmapped_descriptors := none }, b) := by
+  have h1 := opdOf_code id
+  have h2 := opdOf_operand id
+  rw [hc] at h1
+  generalize opdOf id = d at h1 h2 ⊢
+  simp [PyGen.coder.Coder.process_operator_descriptor, h1, h2, exc_pure, exc_bind_ok, PyGen.coder.CoderState.cancel_all_back_references]
+
 end Bufr
